@@ -19,6 +19,8 @@
   * `generated_carries_org_of_generating_request` : organization / crl_url are in the certificate, not in the key — a fresh
                            certificate carries this call's, a cached one those of the get_cert that generated it;
                            `same_request_same_cert_while_cached` now holds for any organization / crl_url of the repeat
+  * `same_request_same_cert_unrelated_registrations` : … and with add_cert calls in between, as long as none of their names is a
+                           potential key of the request (the form the statement and the oracle use)
   * `mem_asteriskForms_iff` : asterisk_forms yields exactly the names allowed by the wildcard rule
 -/
 import MitmVerif.Lemmas.C17
@@ -158,6 +160,72 @@ theorem same_request_same_cert_while_cached (cap : Nat) (ops mid : List Op) (ok 
     · simp [potentialKeys, firstHit_append, hname] at hf
   | none =>
     -- served from (or generated for) the key (cn, sans): `e` is generated and carries exactly these names
+    simp only [firstHit]
+    have hgen : e.custom = false ∧ e.cn = cn ∧ e.sans = sans := by
+      rcases getCert_cases cap ok s cn sans org crl with ⟨e', hf, hg⟩ | ⟨_, _, hg⟩ | ⟨_, _, d, rest, _, ⟨_, hg⟩ | ⟨_, hg⟩⟩
+      · simp only [potentialKeys, firstHit_append, hname, firstHit] at hf
+        rw [hg] at h1; simp [Res.entry?] at h1; subst h1
+        split at hf
+        · rename_i e2 hl
+          simp at hf; subst hf
+          have := hinv.1.certs_ok _ _ (lookup_mem hl)
+          exact ⟨this.1, this.2.1, this.2.2.1⟩
+        · cases hf
+      · rw [hg] at h1; simp [Res.entry?] at h1
+      · rw [hg] at h1; simp [Res.entry?] at h1; subst h1; simp [freshEntry]
+      · rw [hg] at h1; simp [Res.entry?] at h1; subst h1; simp [freshEntry]
+    have hq : e ∈ s2.queue := by
+      rcases hc with hc | hc
+      · rw [hgen.1] at hc; cases hc
+      · exact hc
+    have := (hinv2.1.queue_ok e hq).2.2
+    rw [hgen.2.1, hgen.2.2] at this
+    simp [this]
+
+/-- **Stability under unrelated registrations.** The same with registrations in between: `mid` may contain, besides
+    `get_cert` calls, any `add_cert` none of whose registered names (CN, SAN values, extra names) is a potential key of the
+    request (its CN / SAN names, their wildcard forms, `*`).  Such registrations cannot take the request over, and they do
+    not disturb a custom or still-cached answer.  (`same_request_same_cert_while_cached` is the special case without
+    registrations; a registration under a MATCHING name may legitimately change the answer — `first_registered_name_wins`.) -/
+theorem same_request_same_cert_unrelated_registrations (cap : Nat) (ops mid : List Op) (ok ok' : Bool)
+    (cn : Option Bytes) (sans : List San) (org' crl' : Option Bytes) (e : Entry)
+    (hmid : ∀ op ∈ mid, Op.undisturbing cn sans op)
+    (h1 : (getCert cap ok (run cap Store.empty ops) cn sans org crl).2.entry? = some e)
+    (hc : e.custom = true ∨
+          e ∈ (run cap (getCert cap ok (run cap Store.empty ops) cn sans org crl).1 mid).queue) :
+    (getCert cap ok' (run cap (getCert cap ok (run cap Store.empty ops) cn sans org crl).1 mid) cn sans org' crl').2 = .hit e := by
+  have hinv := inv_run (inv_empty cap) ops
+  have hinv1 := inv_getCert (org := org) (crl := crl) hinv ok cn sans
+  have hinv2 := inv_run hinv1 mid
+  generalize hs : run cap Store.empty ops = s at *
+  generalize hs2 : run cap (getCert cap ok s cn sans org crl).1 mid = s2 at *
+  -- the potential name keys of the request hold the same entries in s, s1 and s2
+  have hnames : ∀ n ∈ potentialNames cn sans, lookup (.name n) s2.certs = lookup (.name n) s.certs := by
+    intro n hn
+    rw [← hs2, lookup_potential_run mid hmid hinv1 n hn, lookup_name_getCert hinv]
+  have hfn : firstHit s2.certs ((potentialNames cn sans).map Key.name) =
+      firstHit s.certs ((potentialNames cn sans).map Key.name) := by
+    apply firstHit_congr
+    intro k hk
+    simp only [List.mem_map] at hk
+    obtain ⟨n, hn, hk⟩ := hk
+    subst hk; exact hnames n hn
+  suffices hfirst : firstHit s2.certs (potentialKeys cn sans) = some e by
+    rcases getCert_cases cap ok' s2 cn sans org' crl' with ⟨e', hf, hg⟩ | ⟨hf, _, _⟩ | ⟨hf, _, _⟩
+    · rw [hg]; rw [hfirst] at hf; simp at hf; rw [hf]
+    · rw [hfirst] at hf; cases hf
+    · rw [hfirst] at hf; cases hf
+  simp only [potentialKeys, firstHit_append] at *
+  rw [hfn]
+  cases hname : firstHit s.certs ((potentialNames cn sans).map Key.name) with
+  | some e0 =>
+    rcases getCert_cases cap ok s cn sans org crl with ⟨e', hf, hg⟩ | ⟨hf, _, _⟩ | ⟨hf, _, _⟩
+    · simp only [potentialKeys, firstHit_append, hname] at hf
+      rw [hg] at h1; simp [Res.entry?] at h1
+      simp at hf; rw [← h1, ← hf]
+    · simp [potentialKeys, firstHit_append, hname] at hf
+    · simp [potentialKeys, firstHit_append, hname] at hf
+  | none =>
     simp only [firstHit]
     have hgen : e.custom = false ∧ e.cn = cn ∧ e.sans = sans := by
       rcases getCert_cases cap ok s cn sans org crl with ⟨e', hf, hg⟩ | ⟨_, _, hg⟩ | ⟨_, _, d, rest, _, ⟨_, hg⟩ | ⟨_, hg⟩⟩
@@ -330,6 +398,21 @@ example : trace 1 Store.empty [reqA, reqB, reqA, reg, reqA] =
 example : (getCert 2 true (run 2 Store.empty [reqA]) none [sanA] (some [0x58]) (some [0x75])).2
     = .hit ⟨false, 0, none, [sanA], some [0x4f], none⟩ := by decide
 example : GeneratedBy [reqA] ⟨false, 0, none, [sanA], some [0x4f], none⟩ := ⟨true, by simp [reqA]⟩
+-- `same_request_same_cert_unrelated_registrations`: a registration under the unrelated name "c" between the two requests
+-- does not disturb the cached answer for a.b; a registration under "*.b" (a potential key of a.b) is NOT undisturbing
+private def regC : Op := .add 9 none [] [[0x63]]
+example : (getCert 2 true (run 2 (getCert 2 true (run 2 Store.empty []) none [sanA] (some [0x4f]) none).1 [regC, reqB])
+      none [sanA] none none).2 = .hit ⟨false, 0, none, [sanA], some [0x4f], none⟩ :=
+  same_request_same_cert_unrelated_registrations (org := some [0x4f]) (crl := none) 2 [] [regC, reqB] true true none [sanA] none none _
+    (by intro op hop
+        simp only [List.mem_cons, List.mem_singleton, List.not_mem_nil, or_false] at hop
+        rcases hop with rfl | rfl
+        · simp only [regC, Op.undisturbing]; decide
+        · simp [reqB, Op.undisturbing])
+    (by decide) (Or.inr (by decide))
+example : ¬ Op.undisturbing none [sanA] reg := by simp only [reg, Op.undisturbing]; decide
+example : (getCert 2 true (run 2 (getCert 2 true Store.empty none [sanA] none none).1 [reg]) none [sanA] none none).2
+    = .hit ⟨true, 7, none, [], none, none⟩ := by decide
 -- dummy_cert failing leaves the store unchanged
 example : (getCert 2 false Store.empty (some []) [] none none).2 = .err := by decide
 
